@@ -4,11 +4,14 @@ import (
 	"fmt"
 	"os"
 	"path/filepath"
+	"runtime"
 	"strings"
 	"testing/synctest"
 
 	pb "github.com/youzan/ZanRedisDB/raft/raftpb"
 	"github.com/youzan/ZanRedisDB/wal/walpb"
+
+	"verif/sim/core"
 )
 
 type fileImg struct {
@@ -380,6 +383,11 @@ func (s *sim) checkImage(kind string, files []fileImg, start walpb.Snapshot, min
 	c := s.c
 	s.images++
 	s.imgSeq++
+	if os.Getenv("WALSIM_DEBUG") != "" && s.images%1000 == 0 {
+		var ms runtime.MemStats
+		runtime.ReadMemStats(&ms)
+		fmt.Fprintf(core.Stdout, "images=%d goroutines=%d heap=%dMB kind=%s\n", s.images, runtime.NumGoroutine(), ms.HeapAlloc>>20, kind)
+	}
 	img := filepath.Join(s.dir, fmt.Sprintf("img%d", s.imgSeq))
 	writeImage(img, files)
 	defer os.RemoveAll(img)
